@@ -174,9 +174,16 @@ def n2(e: Engine, rep: Report):
         ctx = e.method_ctx(cq, '_check_replies')
         if ctx.func.cls.qname != cq and cq != SMTPC:
             continue
-        g = e.build(ctx)
+        g = e.build(ctx, inline=e.inline_same_self(), max_depth=3)
         fid = g.entry.frame.id
         prms = ctx.func.params[1:]
+
+        def cpath(x, fr):
+            # (a helper's parameter stands for what it was given)
+            try:
+                return canon(x, fr)
+            except Exception:
+                return path_of(x, fr)
 
         def examined(n):
             """parameters whose reply (or an element iterated from it) this
@@ -194,7 +201,7 @@ def n2(e: Engine, rep: Report):
                 if isinstance(t, ast.Call) and \
                         isinstance(t.func, ast.Attribute) and \
                         t.func.attr == 'is_error' and \
-                        path_of(t.func.value, n.frame) in iter_vars:
+                        cpath(t.func.value, n.frame) in iter_vars:
                     out.add(prm)
                 # any(r.is_error() for r in prm) / all(...) / a filtering
                 # comprehension over the parameter
